@@ -170,6 +170,8 @@ def checkLayout (c : Case) : CaseResult := Id.run do
   stats := bumpStats stats ("start." ++ str "start") 1
   stats := bumpStats stats ("overlap." ++ str "overlap") 1
   stats := bumpStats stats ("nstress." ++ str "nstress") 1
+  if str "locks" != "0" && str "locks" != "?" then stats := bumpStats stats "with.locks" 1
+  if str "desired" != "0" && str "desired" != "?" then stats := bumpStats stats "with.desiredPositions" 1
   for cc in ccs do stats := bumpStats stats ("lay.cc." ++ ccKind cc) 1
   match c.get1 "hang" with
   | some l => return { verdict := .specfail s!"hang: the layout call did not return within {l[0]?.getD "?"} s (algo={str "algo"}, planted={str "planted"})", stats := stats }
